@@ -183,6 +183,16 @@ fn directive_table() -> Vec<String> {
     ]
     .iter()
     .map(|s| s.to_string())
+    .flat_map(|s| {
+        // "A ends with a line break": also a CRLF or a lone CR (for the members without block scalars,
+        // whose content would change with the break)
+        let mut v = vec![s.clone()];
+        if !s.contains('|') && !s.contains('>') && s.contains('\n') && s.len() <= 12 {
+            v.push(s.replace('\n', "\r\n"));
+            v.push(s.replace('\n', "\r"));
+        }
+        v
+    })
     .collect()
 }
 
